@@ -22,6 +22,9 @@
                reader and access
   file_objects every kind of binary file object (mc/refs/sphere.py STREAM_KINDS) for SPHERE, and for the other
                containers the kinds their own reader accepts
+  stream_position  the same objects NOT at offset 0 when read_signal is called: payload after a junk preamble / after
+               another payload (positioned by seek and by read), two payloads read one after the other; the payload
+               that starts where the stream stands comes back (containers / kinds whose own reader supports it)
 """
 import hashlib
 import io
@@ -57,6 +60,9 @@ ASSUMPTIONS = [
     "as one keyed by name); long_inputs: lengths around 2**16, 2**17 + 1 and 2**20 + 1 frames stand for 'long'; "
     "file_objects: for containers read by a third-party reader a kind of file object is in the property's "
     "domain iff that reader itself returns the stored array from such an object",
+    "stream_position: 'from an open binary stream' is read as 'the container that starts where the stream stands "
+    "at the time of the call' wherever the container's own reader, given the same object in the same position, "
+    "returns it (SPHERE: always; where the SPHERE reader leaves the stream afterwards is left open)",
     "sph_reads: only 16-bit PCM SPHERE is in C11 (mu-law/A-law files come back expanded, i.e. not "
     "bit-identical to what is stored; they are C12's); file lengths are the stated alphabet around "
     "the reader's 16384-byte read size, header sizes 1024/1025/1500/2048/4000",
@@ -1511,6 +1517,167 @@ def _replay_fo(case, seed):
     return core.result([v] if v is not None else [])
 
 
+# ------------------------------------------------------------------ where the stream STANDS at the time of the call
+#
+# "from an open binary stream with force_as": the container that starts where the stream stands NOW (numpy's own
+# idiom: several arrays np.save'd one after the other into one file and np.load'ed one after the other; a payload
+# that follows a preamble).  The stream holds [junk preamble | another payload of the same container] + payload
+# and is positioned at the start of the payload by seek(P) or by read(P); or it holds two payloads and is read
+# twice in a row.  A third-party container is in the lattice iff its OWN reader, given an identically built and
+# positioned object, returns the payload (read_signal hands the object to that reader: what the reader can do
+# read_signal must not undo); SPHERE (the library's own reader: a header, then the samples, from where the
+# stream stands) with every kind that can be positioned.
+
+SP_JUNK = {"byte": b"\x00", "line": b"#feat v1\n", "block512": bytes((7 * i + 3) % 256 for i in range(512))}
+SP_SCENARIOS = [("junk_preamble", j, how) for j in SP_JUNK for how in ("seek", "read")] + \
+               [("payload_preamble", None, how) for how in ("seek", "read")] + \
+               [("sequential", None, "library_read")]
+SP_DTYPES = (None, "float64")
+_SP_CACHE = {}
+
+
+def _sp_payloads(container, seed, tmp):
+    """-> (bytes A, array a, bytes B, array b): two payloads of the container, written by its own writer, of
+    different shape and - where the container stores one - different dtype, other values"""
+    if (container, seed) in _SP_CACHE:
+        return _SP_CACHE[(container, seed)]
+    k = list(CONTAINERS).index(container)
+    layout = _layouts(container)[0][0]
+    dt_b = HIST_STORED.get(container, "int16")
+    dt_a = "float32" if container in ("npy", "npz", "pt", "hdf5") else dt_b
+    out = []
+    for tag, shape, dtype, off in (("A", (7,), dt_a, 400 + 4 * k),
+                                   ("B", (5,) if container == "raw" else (5, 3), dt_b, 402 + 4 * k)):
+        sub = os.path.join(tmp, "sp" + tag)
+        os.makedirs(sub, exist_ok=True)
+        arr = _values(seed, shape, dtype, offset=off, full_range=(container == "wav32"))
+        other = _values(seed, (3,), dtype, offset=off + 1)
+        path = os.path.join(sub, "p" + (CONTAINERS[container][0] or ".f64"))
+        _write(container, layout, arr, other, other, path)
+        with open(path, "rb") as f:
+            out += [f.read(), arr]
+    _SP_CACHE[(container, seed)] = tuple(out)
+    return tuple(out)
+
+
+def _sp_run(reader, kind, data, start, how, wants, tmp):
+    """a fresh object of `kind` holding `data`, positioned at `start` by seek / read, then read len(wants)
+    times in a row -> None when such an object cannot be positioned that way, else a list (it stops at the
+    first read that fails) of ("ok",) | ("exc", exception) | (aspect, detail, got)"""
+    with sph.open_stream(kind, data, tmp) as f:
+        if start:
+            try:
+                if how == "seek":
+                    f.seek(start)
+                elif len(f.read(start)) != start:
+                    return None
+            except core.HarnessError:
+                raise
+            except Exception:
+                return None
+        out = []
+        for want in wants:
+            r = _call(lambda: reader(f))
+            if r[0] == "exc":
+                out.append(r)
+                break
+            got = r[1]
+            c = _rw_compare(got, want)
+            if c is not None:
+                out.append((c[0], c[1], np.array(got) if isinstance(got, np.ndarray) else got))
+                break
+            out.append(("ok",))
+    return out
+
+
+def _sp_case(case, seed, tmp):
+    """-> (violations, observation | "skipped")"""
+    from pydrobert.speech import util
+
+    container, kind, force, req, scen, junk, how = (
+        case[k] for k in ("container", "stream", "force_as", "dtype", "scenario", "junk", "positioned_by"))
+    if container not in ("sph01", "sph10") and kind == "pipe":
+        return [], "skipped"              # not seekable: no third-party reader of these containers takes it
+    A, a, B, b = _sp_payloads(container, seed, tmp)
+    if scen == "junk_preamble":
+        data, start, stored, earlier = SP_JUNK[junk] + B, len(SP_JUNK[junk]), [b], None
+    elif scen == "payload_preamble":
+        data, start, stored, earlier = A + B, len(A), [b], a
+    elif scen == "sequential":
+        data, start, stored, earlier = A + B, 0, [a, b], a
+    else:
+        raise core.HarnessError(scen)
+    n = len(stored)
+    if container in ("sph01", "sph10"):
+        if scen == "sequential":
+            return [], "skipped"          # where the library's reader leaves the stream is not stated
+    else:
+        own = _sp_run(lambda f: np.asarray(_fo_own_reader(container, force, f)), kind, data, start, how, stored, tmp)
+        if own is None:
+            return [], "skipped"
+        n = sum(o == ("ok",) for o in own)        # reads in the domain: those the own reader gets right
+        if n == 0 or (scen == "sequential" and n < 2):
+            return [], "skipped"
+    wants = [s if req is None else s.astype(req) for s in stored[:n]]
+    outs = _sp_run(lambda f: util.read_signal(f, dtype=req, force_as=force), kind, data, start, how, wants, tmp)
+    if outs is None:
+        return [], "skipped"
+    viol = []
+    for i, o in enumerate(outs):
+        if o == ("ok",):
+            continue
+        tags = dict(what="stream_position", container=container, via=force, scenario=scen, positioned_by=how,
+                    read_no=i + 1)
+        desc = "%s: a <%s> holding %s, %s: read_signal(f, force_as=%r, dtype=%r) no. %d, stored there: %s%r" % (
+            container, kind,
+            "%d junk bytes + the payload" % start if scen == "junk_preamble" else
+            "two payloads one after the other (%d + %d bytes)" % (len(A), len(B)),
+            "at offset 0" if not start else "positioned at offset %d by %s(%d)" % (start, how, start),
+            force, req, i + 1, stored[i].dtype, stored[i].shape)
+        c = dict(case, read_no=i + 1)
+        if o[0] == "exc":
+            viol.append(core.violation(dict(tags, aspect="exception", exc=type(o[1]).__name__),
+                                       "%s: raised %s: %s" % (desc, type(o[1]).__name__, _clean(o[1])), c))
+            continue
+        rewound = False
+        if earlier is not None and (start or i) and isinstance(o[2], np.ndarray):
+            rewound = _rw_compare(o[2], earlier if req is None else earlier.astype(req)) is None
+        viol.append(core.violation(dict(tags, aspect=o[0], payload_at_offset_0_returned=rewound),
+                                   "%s: %s%s" % (desc, o[1], " (it is the payload at offset 0 of the stream)"
+                                                 if rewound else ""), c))
+    return viol, ("ok" if not viol else viol[0]["tags"]["aspect"])
+
+
+def _sp_cases(container, kind):
+    for force in CONTAINERS[container][1]:
+        for scen, junk, how in SP_SCENARIOS:
+            for req in (SP_DTYPES if container != "raw" else SP_DTYPES[:1]):
+                yield dict(kind="stream_position", container=container, stream=kind, force_as=force, dtype=req,
+                           scenario=scen, junk=junk, positioned_by=how)
+
+
+def _sp(pt, seed):
+    container, kind = pt
+    viol, obs, evals, skipped = [], set(), 0, 0
+    with _Tmp() as tmp:
+        for case in _sp_cases(container, kind):
+            v, o = _sp_case(case, seed, tmp)
+            if o == "skipped":
+                skipped += 1
+                continue
+            evals += 1
+            obs.add((o, case["scenario"], case["dtype"]))
+            viol += v
+    return core.result(viol, evals=evals, nontrivial_count=evals, nontrivial=evals > 0, skipped=skipped,
+                       obs=sorted(map(str, obs)), sample=dict(container=container, file_object=kind))
+
+
+def _replay_sp(case, seed):
+    with _Tmp() as tmp:
+        v, _ = _sp_case({k: x for k, x in case.items() if k != "read_no"}, seed, tmp)
+    return core.result([x for x in v if case.get("read_no") in (None, x["case"]["read_no"])])
+
+
 # ------------------------------------------------------------------ registration
 
 
@@ -1530,6 +1697,8 @@ def _replay(case, seed):
         return _replay_long(case, seed)
     if k == "file_object":
         return _replay_fo(case, seed)
+    if k == "stream_position":
+        return _replay_sp(case, seed)
     return _replay_error(case, seed)
 
 
@@ -1662,5 +1831,22 @@ def subchecks(tier, seed):
             "directly - the others, and a pipe (not seekable), are skipped; same shape, dtype and values as stored.astype(dtype)" % (
                 list(sph.STREAM_KINDS),),
             axes=dict(container=list(CONTAINERS), file_object=list(sph.STREAM_KINDS), dtype=[None, "float64"]),
+            replay=lambda case: _replay(case, seed)),
+        core.SubCheck(
+            "stream_position", [(c, k) for c in CONTAINERS for k in sph.STREAM_KINDS], lambda p: _sp(p, seed),
+            "where the stream STANDS at the time of the call: per point (container, kind of file object of "
+            "STREAM_KINDS) x every force_as of the container x dtype {None, float64} x scenario {a junk preamble "
+            "(1 zero byte, a 9-byte text line, 512 patterned bytes) + the payload; another payload of the same "
+            "container (other shape, other stored dtype where the container has one, other values) + the payload - "
+            "each with the object positioned at the start of the payload by seek(P) and by read(P); two payloads "
+            "one after the other in an object at offset 0, read_signal called twice in a row}: every call returns "
+            "the payload that starts where the stream stands (shape, dtype, values of stored.astype(dtype)); a wrong "
+            "result that equals the payload at offset 0 is tagged.  In the lattice: SPHERE with every kind that can be "
+            "positioned that way (sequential reads excepted: where its reader leaves the stream is not stated); any other "
+            "container iff the container's OWN reader (wave, soundfile, numpy.load, torch.load, h5py, numpy.fromfile) "
+            "returns the payload(s) from an identically built and positioned object - the others are skipped",
+            axes=dict(container=list(CONTAINERS), file_object=list(sph.STREAM_KINDS), dtype=list(SP_DTYPES),
+                      scenario=[list(map(str, x)) for x in SP_SCENARIOS],
+                      junk={k: len(v) for k, v in SP_JUNK.items()}),
             replay=lambda case: _replay(case, seed)),
     ]
